@@ -40,11 +40,12 @@ def check_pair(ctx, sc):
         if len(bs) < 3:
             bs.append({"t": rep["now"], "threads": [(t["name"], t["state"], t["label"]) for t in rep["threads"] if t["state"] != "done"], "scenario": _brief(sc)})
         return
-    if L.died(rep):
-        ctx.exclude("thread-died(C05)")
-        return
+    died = bool(L.died(rep))
+    if died:
+        # the thread death itself is C05's; what each side *reports* (outcome flags, terminal notifications) is still checked
+        ctx.exclude("thread-died(C05): only outcome uniqueness checked")
     stuck = [t for t in L.pynetdicom_threads(rep) if t["state"] != "done"]
-    if stuck:
+    if stuck and not died:
         who = "+".join(sorted({f"{t['kind']}@{t['label']}" for t in stuck}))
         ctx.fail("never-ends", who, f"threads left at quiescence t={rep['now']}: {[(t['name'], t['state'], t['label']) for t in stuck]}; scenario {_brief(sc)}")
         return
@@ -57,14 +58,16 @@ def check_pair(ctx, sc):
     for name, (s, rec, key) in sides.items():
         o = s["outcome"]
         if len(o) > 1:
-            ctx.fail("multiple-outcomes", f"{name}:{'+'.join(o)}", f"{name} reports {o}; scenario {_brief(sc)}")
+            ctx.fail("multiple-outcomes", f"{name}:{'+'.join(o)}" + (":dul-died" if died else ""), f"{name} reports {o}; scenario {_brief(sc)}")
             return
         n_term = [e[2] for e in rec.events if e[1] == key and e[2] in TERMINAL]
         if len(n_term) > 1:
             acse = [e[3] for e in rec.events if e[1] == key and e[2] == "EVT_ACSE_SENT"]
             when = "during-own-release" if "A_RELEASE" in acse else "no-own-release"
-            ctx.fail("terminal-event-count", f"{name}:{'+'.join(sorted(n_term))}:{when}", f"{name} fired terminal events {n_term}; outcome {o}; scenario {_brief(sc)}")
+            ctx.fail("terminal-event-count", f"{name}:{'+'.join(sorted(n_term))}:{when}" + (":dul-died" if died else ""), f"{name} fired terminal events {n_term}; outcome {o}; scenario {_brief(sc)}")
             return
+        if died:
+            continue
         if len(o) == 1 and len(n_term) == 0:
             ctx.fail("terminal-event-count", f"{name}:none:{o[0]}", f"{name} ended {o} without a terminal event; scenario {_brief(sc)}")
             return
@@ -72,8 +75,12 @@ def check_pair(ctx, sc):
             ctx.fail("still-established", name, f"{name} still is_established at the end (outcome {o})")
             return
         if not s["sock_closed"]:
-            ctx.fail("socket-open", name, f"{name} socket still open; outcome {o}; scenario {_brief(sc)}")
+            first = [e[3] for e in rec.events if e[1] == key and e[2] == "EVT_FSM_TRANSITION"]
+            why = "killed-during-first-action" if (s.get("state") in ("Sta2", "Sta4") and len(first) <= 1) else f"state={s.get('state')}"
+            ctx.fail("socket-open", f"{name}:{why}", f"{name} socket still open; outcome {o}; scenario {_brief(sc)}")
             return
+    if died:
+        return
     ro, ao = req["outcome"], a["outcome"]
     if not ro and not ao:
         ctx.cls("no-outcome-both")
@@ -81,6 +88,13 @@ def check_pair(ctx, sc):
     # the requestor may never have got an association (connection closed during negotiation counts as aborted there)
     pair = (ro[0] if ro else "none", ao[0] if ao else "none")
     ok = pair in {("released", "released"), ("aborted", "aborted"), ("rejected", "rejected")}
+    # a side that never got an established association (aborted/closed during negotiation) may have no outcome flag at all
+    for mine, (s_, rec, key) in (("requestor", sides["requestor"]), ("acceptor", sides["acceptor"])):
+        never_est = not any(e[1] == key and e[2] == "EVT_ESTABLISHED" for e in rec.events)
+        other = pair[1] if mine == "requestor" else pair[0]
+        me = pair[0] if mine == "requestor" else pair[1]
+        if me == "none" and never_est and other in ("aborted", "none"):
+            ok = True
     if not ok:
         cause = "other"
         for name, (s_, rec, key) in sides.items():
@@ -92,8 +106,9 @@ def check_pair(ctx, sc):
         return
     to = sc["timeouts"]
     bound = 2 * (to["acse"] + to["dimse"] + to["network"]) + to["connection"] + 14.0
-    if rep["now"] > bound:
-        ctx.fail("too-slow", "bound", f"association took {rep['now']} virtual seconds (> {bound}); scenario {_brief(sc)}")
+    last = max([e[0] for rec in (req["_rec"], out["_rec_acc"]) for e in rec.events] or [0.0])
+    if last > bound:
+        ctx.fail("too-slow", "bound", f"association took {last} virtual seconds (> {bound}); scenario {_brief(sc)}")
 
 
 def _brief(sc):
